@@ -27,6 +27,10 @@ INLINE_MAX_NODES = 260       # AST nodes of a helper that may be inlined
 INLINE_MAX_RESULT = 400      # size of an inlined value
 
 
+def depth_guard(sy):
+    return getattr(sy, "_prop_depth", 0) > 3
+
+
 class Sym:
     def __init__(self, prog, fi, self_cls=None, inline=True, stack=()):
         self.prog = prog
@@ -119,6 +123,10 @@ class Sym:
                 if st is target:
                     return True
                 if contains_t(st):
+                    if isinstance(st, (ast.If, ast.While)) and contains_t(st.test):
+                        # the target is part of the test itself: the operands in front of it (short circuit) guard it
+                        guards.extend(self._expr_guards(st.test, target, env))
+                        return True
                     if isinstance(st, ast.If):
                         c = self.expr(st.test, env, 0)
                         if any(contains_t(x) for x in st.body):
@@ -148,7 +156,12 @@ class Sym:
                                 return walk(h.body)
                     if isinstance(st, (ast.With,)):
                         return walk(st.body)
-                    return True      # the target is inside a simple statement (expression)
+                    # the target is inside a simple statement (expression): short-circuit operands / conditional expressions on the way guard it
+                    for fld in ("value", "test", "exc", "msg"):
+                        sub_ = getattr(st, fld, None)
+                        if isinstance(sub_, ast.AST) and contains_t(sub_):
+                            guards.extend(self._expr_guards(sub_, target, env))
+                    return True
                 # statement before the target: an `if` whose one arm leaves (return / raise / continue / break) guards what follows
                 if isinstance(st, ast.If):
                     t1, t2 = self._terminates(st.body), self._terminates(st.orelse)
@@ -171,6 +184,47 @@ class Sym:
             return False
         walk(list(self.fi.node.body))
         return env, tuple(guards)
+
+    def _expr_guards(self, root, target, env):
+        """conditions under which `target`, a sub-expression of `root`, is evaluated: earlier operands of `and` (true) / `or`
+        (false), the test of a conditional expression"""
+        out = []
+        node = root
+        while node is not target:
+            nxt = None
+            if isinstance(node, ast.BoolOp):
+                for i, v in enumerate(node.values):
+                    if any(x is target for x in ast.walk(v)):
+                        for prev in node.values[:i]:
+                            try:
+                                c = self.expr(prev, env, 0)
+                            except Exception:
+                                c = None
+                            if c is not None:
+                                out.append(c if isinstance(node.op, ast.And) else mknot(c))
+                        nxt = v
+                        break
+            elif isinstance(node, ast.IfExp):
+                if any(x is target for x in ast.walk(node.test)):
+                    nxt = node.test
+                else:
+                    try:
+                        c = self.expr(node.test, env, 0)
+                    except Exception:
+                        c = None
+                    in_body = any(x is target for x in ast.walk(node.body))
+                    if c is not None:
+                        out.append(c if in_body else mknot(c))
+                    nxt = node.body if in_body else node.orelse
+            else:
+                for ch in ast.iter_child_nodes(node):
+                    if any(x is target for x in ast.walk(ch)):
+                        nxt = ch
+                        break
+            if nxt is None or isinstance(nxt, (ast.Lambda, ast.ListComp, ast.SetComp, ast.DictComp, ast.GeneratorExp)):
+                break
+            node = nxt
+        return out
 
     def env_at_end(self, stmts=None, bound=None):
         """Environment (name -> canonical) after straight-line interpretation of the body (for analysing locals)."""
@@ -515,6 +569,35 @@ class Sym:
             elif cur[0] not in ("loop", "filled"):
                 env[d] = ("filled", cur)         # inside the loop the object keeps its identity
 
+    def _simple_property(self, attr):
+        """`self.<attr>` where <attr> is a property of the class whose getter is one `return <expression>` over fields of self,
+        constants, arithmetic and len(): the expression itself (a named piece of arithmetic such as `len(self.scalings) - 1`).
+        Properties that return a field as it is, or call anything else, keep their name."""
+        cls = self.self_cls
+        if cls is None or depth_guard(self):
+            return None
+        found = self.prog.lookup(cls, attr) if hasattr(self.prog, "lookup") else None
+        if not (found and found[0] == "method" and "property" in (found[2].decorators or [])):
+            return None
+        body = [s_ for s_ in found[2].node.body if not (isinstance(s_, ast.Expr) and isinstance(s_.value, ast.Constant) and isinstance(s_.value.value, str))]
+        if len(body) != 1 or not isinstance(body[0], ast.Return) or body[0].value is None:
+            return None
+        ret = body[0].value
+        if not isinstance(ret, (ast.BinOp, ast.UnaryOp)):
+            return None
+        for n_ in ast.walk(ret):
+            if isinstance(n_, ast.Call) and not (isinstance(n_.func, ast.Name) and n_.func.id == "len"):
+                return None
+            if isinstance(n_, ast.Name) and n_.id not in ("self", "len"):
+                return None
+            if isinstance(n_, (ast.Lambda, ast.IfExp, ast.Subscript, ast.Compare, ast.BoolOp, ast.Await, ast.Yield)):
+                return None
+        self._prop_depth = getattr(self, "_prop_depth", 0) + 1
+        try:
+            return self.expr(ret, {})
+        finally:
+            self._prop_depth -= 1
+
     def _record_field(self, base, attr):
         """field of a record built on the spot:  Record(a, b).x  is the argument the record stores as x -- for a namedtuple
         declared at module level, and for a package class whose __init__ stores its parameters unchanged"""
@@ -677,6 +760,9 @@ class Sym:
                         held[0] == "method" and len(held) == 5 and not held[3] and not held[4]) or (held[0] == "call" and len(held) == 4 and held[1] == "bool")):
                     # a flag stored on self earlier in this function (self._index_only = reader.is_index_file_only()) reads as the test it holds
                     return held
+                pv = self._simple_property(e.attr)
+                if pv is not None:
+                    return pv
                 return ("self", e.attr)
             if d and d.split(".")[0] in self.fi.module.imports and d.split(".")[0] not in env:
                 full = self._ext_name(d)
@@ -1381,6 +1467,21 @@ def eval_cond(c, oracle):
         if any(v is True for v in vals):
             return True
         return False if all(v is False for v in vals) else None
+    if c[0] == "cmp" and c[1] in ("is", "is not") and len(c) == 4 and c[3] == ("const", None) and isinstance(c[2], tuple) and c[2] and c[2][0] == "phi":
+        # (None if T else {...}) is None  holds exactly when T does: a conditional whose one arm is None and whose other arm is a
+        # freshly built container or a non-None constant
+        def is_none(v):
+            if v == ("const", None):
+                return True
+            if isinstance(v, tuple) and v and (v[0] in ("dict", "list", "tuple", "comp", "dictcomp", "setcomp", "set") or (v[0] == "const" and v[1] is not None)):
+                return False
+            return None
+        an, bn = is_none(c[2][2]), is_none(c[2][3])
+        if an is not None and bn is not None and an != bn:
+            r = eval_cond(c[2][1], oracle)
+            if r is not None:
+                res = an if r else bn
+                return res if c[1] == "is" else (not res)
     if c[0] == "cmp" and c[1] in ("is not", "!="):
         r = oracle(("cmp", "is" if c[1] == "is not" else "==", c[2], c[3]))
         return None if r is None else (not r)
